@@ -107,6 +107,32 @@ def check_vector(v):
         only_unmapped_name = bool(first) and set(first) == {"chromosome"} and first["chromosome"][0] is None
         rep("decoded BAM records differ from the records the specification encoded", "read", exp[:2], first or str(o)[:300],
             only_unmapped_reference_name=only_unmapped_name)
+    # two files with different reference lists in one process: the records of the first one, decoded only after the second file was
+    # opened and read, carry the names of their own header (and the other way round)
+    def two_files():
+        other = [("altA", 100000), ("altB_longer_name", 200000)]
+        hb = b"BAM\x01" + struct.pack("<i", 0) + struct.pack("<i", len(other))
+        for name_, ln in other:
+            hb += struct.pack("<i", len(name_) + 1) + name_.encode() + b"\x00" + struct.pack("<i", ln)
+        path2 = os.path.join(d, "b.bam")
+        with open(path2, "wb") as f:
+            f.write(gzip.compress(hb + body))
+            f.write(EOF)
+        a = bnp.open(path).read()
+        b = bnp.open(path2).read()
+        cb = b.chromosome.tolist()
+        ca = a.chromosome.tolist()
+        ia = [[int(x), int(y)] for x, y in zip(*(lambda t_: (np.asarray(t_.start).tolist(), np.asarray(t_.stop).tolist()))(bnp.open(path, buffer_type=BamIntervalBuffer).read()))]
+        return ca, cb, ia
+    o = outcome(two_files)
+    n += 1
+    wa = [REFS[r["ref"]][0] if r["ref"] >= 0 else None for r in recs]
+    wb = [["altA", "altB_longer_name"][r["ref"]] if r["ref"] >= 0 else None for r in recs]
+    okk = o[0] == "ok" and all((w is None and g not in ("chr1", "chr2", "altA", "altB_longer_name")) or w == g for w, g in zip(wa, o[1][0])) \
+        and all((w is None and g not in ("chr1", "chr2", "altA", "altB_longer_name")) or w == g for w, g in zip(wb, o[1][1])) \
+        and o[1][2] == [[iv["start"], iv["stop"]] for iv in v["intervals"]]
+    if not okk:
+        rep("records of two BAM files with different reference lists read in one process do not carry the names of their own headers", "two-files", [wa, wb], str(o)[:300])
     # chunked reading with every chunk size >= the largest record
     largest = max(v["sizes"])
     total = len(body)
